@@ -20,6 +20,7 @@ import warnings
 
 from . import vloop as VL
 
+import datetime as _datetime
 REPO = os.environ.get('VERIF_REPO', '/repo')
 if REPO not in sys.path:
     sys.path.insert(0, REPO)
@@ -29,6 +30,7 @@ import asynciojobs                                      # noqa: E402
 from asynciojobs import (AbstractJob, Job, Scheduler,   # noqa: E402
                          PureScheduler, PrintJob, Watch)
 import asynciojobs.purescheduler as _ps                 # noqa: E402
+import asynciojobs.watch as _watchmod                   # noqa: E402
 
 assert os.path.realpath(asynciojobs.__file__).startswith(
     os.path.realpath(REPO) + os.sep), \
@@ -74,6 +76,22 @@ class _TimeShim:
 
 
 _ps.time = _TimeShim
+
+
+class _DatetimeShim:
+    """asynciojobs.watch reads datetime.now(): same virtual clock, so that a
+    Watch attached to a scheduler is a deterministic part of the run"""
+    _base = _datetime.datetime(2020, 1, 1)
+
+    @classmethod
+    def now(cls):
+        c = CTX
+        t = c.loop.vtime if c is not None and getattr(c, 'loop', None) \
+            is not None else 0
+        return cls._base + _datetime.timedelta(seconds=t)
+
+
+_watchmod.datetime = _DatetimeShim
 
 
 # -------------------------------------------------- behaviours (logging only)
@@ -516,6 +534,11 @@ def run_one(scn, prefix=(), snap=False, drain=True, max_iter=4000):
                 first_ok = False
             except Exception:
                 pass
+            if scn['rerun'] == 'emptied':
+                # ... and has then been emptied: the second run is the run of
+                # an empty scheduler that carries the first run's state
+                for j in list(built.top.jobs):
+                    built.top.remove(j)
             chooser.frozen = False
             del ctx.log[:]
             del ctx.snaps[:]
